@@ -30,14 +30,16 @@ CK_RV SoftHSM::getEDPrivateKey(EDPrivateKey*, Token*, OSObject*) { return getkey
 CK_RV SoftHSM::getEDPublicKey(EDPublicKey*, Token*, OSObject*) { return getkey(4); }
 // session setters beyond setOpType / setReAuthentication (env/softhsm_env.cpp)
 void Session::setAsymmetricCryptoOp(AsymmetricAlgorithm*) { OUT(set_n)++; SFX(SESSION_SET_N)++; }
-void Session::setMechanism(AsymMech::Type) { SFX(SESSION_SET_N)++; }
+void Session::setMechanism(AsymMech::Type m) { OUT(set_mech) = (CK_ULONG)m; SFX(SESSION_SET_N)++; }
 void Session::setParameters(void*, size_t) { SFX(SESSION_SET_N)++; }
 void Session::setAllowMultiPartOp(bool v) { OUT(set_multi) = v; SFX(SESSION_SET_N)++; }
 void Session::setAllowSinglePartOp(bool v) { OUT(set_single) = v; SFX(SESSION_SET_N)++; }
 void Session::setPrivateKey(PrivateKey*) { SFX(SESSION_SET_N)++; }
 void Session::setPublicKey(PublicKey*) { SFX(SESSION_SET_N)++; }
 
-#define MK VP_MK_HSM(); CK_MECHANISM mech; unsigned char mp[24]; for (int i = 0; i < 24; i++) mp[i] = vp_in_pss[i]; mech.mechanism = SES(MECH); \
+#define MK VP_MK_HSM(); CK_MECHANISM mech; unsigned char mp[40]; memset(&mp[0], 0, 40); for (int i = 0; i < 24; i++) mp[i] = vp_in_pss[i]; mech.mechanism = SES(MECH); \
 	mech.pParameter = SES(MECH_PARAM_NULL) ? NULL_PTR : (CK_VOID_PTR)&mp[0]; mech.ulParameterLen = SES(MECH_PARAM_LEN)
 extern "C" CK_RV vp_sign(void) { MK; return hsm->AsymSignInit(SES(HSESSION), SES(MECH_NULL) ? (CK_MECHANISM_PTR)0 : &mech, SES(HARG0)); }
 extern "C" CK_RV vp_verify(void) { MK; return hsm->AsymVerifyInit(SES(HSESSION), SES(MECH_NULL) ? (CK_MECHANISM_PTR)0 : &mech, SES(HARG0)); }
+extern "C" CK_RV vp_encinit(void) { MK; return hsm->AsymEncryptInit(SES(HSESSION), SES(MECH_NULL) ? (CK_MECHANISM_PTR)0 : &mech, SES(HARG0)); }
+extern "C" CK_RV vp_decinit(void) { MK; return hsm->AsymDecryptInit(SES(HSESSION), SES(MECH_NULL) ? (CK_MECHANISM_PTR)0 : &mech, SES(HARG0)); }
